@@ -62,11 +62,80 @@ func (c *Ctx) searchResultKind(rule string) {
 		}
 		return g
 	}
+	// a mapper that decides by itself: inside it every return of the UID is taken on the true outcome of a
+	// condition derived from contexts.IsUID(ctx) (called there or captured) and every return of Seq on the false one
+	fromIsUID := func(v ssa.Value) bool {
+		return engine.AnyBackward(v, engine.FlowOpts{Loads: true}, func(x ssa.Value) bool {
+			call, ok := x.(*ssa.Call)
+			if !ok {
+				return false
+			}
+			sc := call.Call.StaticCallee()
+			return sc != nil && engine.BaseName(sc) == "IsUID" && strings.HasSuffix(engine.PkgPathOf(sc), "internal/contexts")
+		})
+	}
+	decidesItself := func(g *ssa.Function) bool {
+		if g == nil {
+			return false
+		}
+		seen := map[string]int{}
+		for _, ret := range engine.Returns(g) {
+			if len(ret.Results) != 1 {
+				return false
+			}
+			v := ret.Results[0]
+			for {
+				switch t := v.(type) {
+				case *ssa.Convert:
+					v = t.X
+					continue
+				case *ssa.ChangeType:
+					v = t.X
+					continue
+				}
+				break
+			}
+			fld := fieldNameOf(v)
+			idx, known := map[string]int{"UID": 0, "Seq": 1}[fld]
+			if !known {
+				return false
+			}
+			ok := false
+			for _, b := range g.Blocks {
+				iff := engine.IfOf(b)
+				if iff == nil {
+					continue
+				}
+				cond, neg := engine.StripNot(iff.Cond)
+				if !fromIsUID(cond) {
+					continue
+				}
+				e := idx
+				if neg {
+					e = 1 - idx
+				}
+				if engine.EdgeDominates(b, e, ret.Block()) || (b.Succs[e] == ret.Block() && len(ret.Block().Preds) == 1) {
+					ok = true
+				}
+			}
+			if !ok {
+				return false
+			}
+			seen[fld]++
+		}
+		return seen["UID"] > 0 && seen["Seq"] > 0
+	}
 	kinds := map[string]int{}
 	for _, f := range c.funcsInPkg("internal/state") {
 		f := f
 		ifs := isUIDIfs(f)
 		judge := func(g *ssa.Function, onEdge func(ib *ssa.BasicBlock, idx int) bool, pos token.Pos) {
+			if decidesItself(g) {
+				kinds["UID"]++
+				kinds["Seq"]++
+				R.Check(true, rule, c.name(f)+"|result mapper decides by IsUID", P.Pos(pos), "UID on the IsUID edge, Seq otherwise", "")
+				return
+			}
 			fld := fieldReturned(g)
 			kinds[fld]++
 			idx, known := map[string]int{"UID": 0, "Seq": 1}[fld]
@@ -114,8 +183,22 @@ func (c *Ctx) searchResultKind(rule string) {
 		for _, cell := range cellOrder {
 			stores := cells[cell]
 			isStore := map[ssa.Instruction]bool{}
+			allDecide := true
 			for _, st := range stores {
 				isStore[st] = true
+				if !decidesItself(asMapper(st.Val)) {
+					allDecide = false
+				}
+			}
+			if allDecide {
+				kinds["UID"]++
+				kinds["Seq"]++
+				for _, want := range []string{"UID", "Seq"} {
+					R.Check(true, rule, c.name(f)+"|result mapper "+want, P.Pos(f.Pos()), "UID when IsUID(ctx), Seq otherwise", "")
+				}
+				continue
+			}
+			for _, st := range stores {
 				kinds[fieldReturned(asMapper(st.Val))]++
 			}
 			var uses []ssa.Instruction
